@@ -532,7 +532,7 @@ type Event struct {
 // Ts returns the time stamp in seconds.
 func (e *Event) Ts() float64 {
 	if e.Kind == "final" {
-		return float64(e.TsHalf)/2 + 0.25
+		return float64(e.TsHalf)/2 + 0.2871
 	}
 	return float64(e.TsHalf) / 2
 }
@@ -540,7 +540,7 @@ func (e *Event) Ts() float64 {
 // CoqTs prints the time stamp.
 func (e *Event) CoqTs() string {
 	if e.Kind == "final" {
-		return CoqQ(2*e.TsHalf+1, 4)
+		return CoqQ(5000*e.TsHalf+2871, 10000)
 	}
 	return CoqQ(e.TsHalf, 2)
 }
